@@ -3,7 +3,7 @@
 import json, subprocess, sys
 base = json.load(open("/root/.vp/BASELINE.json"))
 want = set(base["stable_pass"])
-r = subprocess.run(["go", "test", "-json", "-vet=off", "-count=1", "-timeout", "25m", "./..."], cwd="/repo", capture_output=True, text=True)
+r = subprocess.run(["go", "test", "-json", "-vet=off", "-count=1", "-timeout", "25m", "./..."], cwd=(sys.argv[1] if len(sys.argv) > 1 else "/repo"), capture_output=True, text=True)
 got = set()
 failed = set()
 for line in r.stdout.splitlines():
